@@ -197,6 +197,37 @@ def c08c(ctx, tu):
                                detail="%s inserts into a clause list; only add_condition / add_side_effect may" % f.qe)
 
 
+def c08d_order(ctx, tu):
+    """WITH / LR_WITH clauses are evaluated in declaration order: wherever the matching decision evaluates them, every
+    evaluation happens inside the walk over the expectation's clause list (never on a remembered clause ahead of the
+    walk) and the walk skips no element (no path from the loop's body back to its head avoids the evaluation)."""
+    n = 0
+    for fn in tu.find("trompeloeil::call_matcher::match_conditions"):
+        if not fn.has_body:
+            continue
+        checks = cfg.find_events(fn, lambda e: e["e"] == "call" and qe(e) == A["condition_check"])
+        if not checks:
+            continue        # the decision is made elsewhere (C08.d follows every function that evaluates clauses)
+        n += 1
+        why = None
+        loops_seen = {}
+        for bid, i, e in checks:
+            l = cfg.loop_containing(fn, bid)
+            if l is None:
+                why = why or "a clause is evaluated outside the walk over the clause list (at %s): it runs before the " \
+                             "clauses declared ahead of it" % short_loc(e.get("loc", ""))
+            else:
+                loops_seen.setdefault(l["head"], (l, set()))[1].add(bid)
+        for head, (l, blocks) in loops_seen.items():
+            entry = [x for x in (fn.blocks[head].get("succ") or []) if x in l["body"]]
+            for en in entry:
+                if en not in blocks and head in cfg.reach(fn, en, avoid_blocks=blocks):
+                    why = why or "the walk over the clause list can pass an element without evaluating it"
+        ctx.ob("C08.d.order", "trompeloeil::call_matcher::match_conditions", why is None, pattern=fn.pat, unit=tu.name,
+               inst=fn.q, detail="" if why is None else "WITH clauses must be evaluated in declaration order: " + why)
+    return n
+
+
 # ------------------------------------------------------------------------------- C08.d
 def c08d(ctx, tu):
     """WITH clauses: in every function that evaluates them, once a clause has failed no further
@@ -509,6 +540,7 @@ def run(ctx):
         c08b(ctx, tu)
         c08c(ctx, tu)
         n += c08d(ctx, tu)
+        c08d_order(ctx, tu)
         c08ef(ctx, tu)
         c08h(ctx, tu)
         units.append({"unit": tu.name, "functions": len(tu.fns)})
